@@ -218,7 +218,54 @@ def _site_anchor(n) -> str:
     return "top"
 
 
+def rule_no_stale_sample(run, prog):
+    run.rule("R-9.6", "no stale position sample: in the functions that write the position state directly (pop, "
+             "get_next_token) a local that holds a sample of it (line_pos(), __line, __line_pos) is never used on a path "
+             "on which the state was written after the sample", floor=2)
+    for key in ("lexer/lexer.py::Lexer.pop", "lexer/lexer.py::Lexer.get_next_token"):
+        fn = prog.fn(key)
+        g = cfg_of(fn)
+        writes = set()
+        for n in walk_fn(fn.node):
+            if isinstance(n, (ast.Assign, ast.AugAssign)):
+                tg = n.targets if isinstance(n, ast.Assign) else [n.target]
+                if any(text(t).endswith(("__line", "__line_pos")) for t in tg):
+                    writes.add(g.nid(n))
+        writes.discard(None)
+        samples = {}        # name -> [sample node ids]
+        for n in walk_fn(fn.node):
+            if isinstance(n, ast.Assign) and any(x in text(n.value) for x in ("self.line_pos()", "self.__line_pos", "self.__line")) \
+                    and not isinstance(n.value, ast.Constant):
+                for t in n.targets:
+                    for x in ast.walk(t):
+                        if isinstance(x, ast.Name):
+                            samples.setdefault(x.id, []).append(g.nid(n))
+        bad = []
+        for name, sids in samples.items():
+            sid_set = {s_ for s_ in sids if s_ is not None}
+            for u in walk_fn(fn.node):
+                if isinstance(u, ast.Name) and u.id == name and isinstance(u.ctx, ast.Load):
+                    uid = _cfg_node_of_expr(g, u)
+                    if uid is None:
+                        continue
+                    # sample -> write -> use, without passing through a (re)sample
+                    for w in writes:
+                        if any(g.can_reach(s_, w, avoid=sid_set, follow_exc=False) or s_ == w for s_ in sid_set) and \
+                                (w == uid and False or g.can_reach(w, uid, avoid=sid_set, follow_exc=False)):
+                            bad.append((u, name, g.nodes[w].ast))
+                            break
+        uniq = {}
+        for u, name, w in bad:
+            uniq.setdefault(name, (u, w))
+        run.ob("R-9.6", f"{fn.key}::no-stale-sample", not uniq,
+               "a sampled position is used after the position state was rewritten: " + "; ".join(
+                   f"`{nm}` used at line {u.lineno} after `{text(w, 40)}` (line {w.lineno})" for nm, (u, w) in uniq.items())
+               + " - after a line splice inside a token the tab stop / the diagnostic is computed from the old column",
+               next(iter(uniq.values()))[0] if uniq else fn.node, samples=sorted(samples))
+
+
 def check(run, prog):
+    rule_no_stale_sample(run, prog)
     rule_ownership(run, prog)
     rule_capture(run, prog)
     rule_from_token(run, prog)
